@@ -725,7 +725,7 @@ def judge_mutations(res, label, raw, channel, layout, bit_bytes, genuine_txo, sp
             res.tally(f'refused_false:{field}')
         else:
             res.tally(f'refused_{verdict}:{field}')
-        res.distinct_add('nontrivial', ('mut', label, field, off, mask))
+        res.distinct_add('nontrivial', ('mut', label, field, off))
 
 
 def layout_v2(raw, txo):
@@ -1121,7 +1121,7 @@ def run(ctx):
               'flag, message (every bit of the first B bytes, two bits per byte after), input swap, every other channel, '
               'every bit of the channel key, placeholder signature; three main-net fixtures with the same mutations; five '
               'complete wallet flows.  Distinct non-trivial = distinct (kind tuple, key slots, outputs, version, locktime, '
-              'sequence, re-sign, amount) input cases + distinct (object, mutation field, offset, mask) + distinct signed '
+              'sequence, re-sign, amount) input cases + distinct (object, mutated field, byte offset) + distinct signed '
               'objects / channel swaps / flows.'),
         exhaustive=True,
         bounds={'max_inputs': 2 if ctx.quick else 4, 'wallets': wallets, 'message_bytes_with_every_bit_flipped': bit_bytes,
